@@ -140,8 +140,8 @@ fn corrected(m: f64, ec: f64) -> f64 {
     m - (m - m * m) * ec
 }
 
-// @family prop=C16 name=c16_value_step macro=c16_value_step n=3 quick=0 thorough=0,1 tseeded=0 timeout=3000
-// @about the poll that reports / refreshes the value, slice = sample rate {500 Hz: capacity 9, newest 1 sample excluded; 1 kHz: 18 / 2; 2 kHz: 35 / 4}, default resistor triple. State built without branching: the capture buffer receives 3 symbolic LEFT-OVER samples of an earlier press and then the capacity-1 samples of the current unbroken run (HistoryBuffer::write, in order), run counters as c15_poll_step proves them for a run of that length, press flag symbolic (first report or refresh); then one real poll() with the sample that completes the capture. Controller B differs from A in the left-over samples, in the newest samples that fall in the finger-lift allowance and in the completing sample: both report the press and value() is bit-identical (depends on no sample of an earlier press and on none of the excluded newest samples), lies in [0,1]; run samples on a 2^-10 grid in the in-range interval
+// @family prop=C16 name=c16_value_step macro=c16_value_step n=3 quick=0 thorough=0 tseeded=0 timeout=3000
+// @about the poll that reports / refreshes the value, slice = sample rate {500 Hz: capacity 9, newest 1 sample excluded; (1 kHz: 18 / 2 and 2 kHz: 35 / 4 exist as slices 1, 2 but the 1 kHz one did not finish in 50 min and is not part of either tier)}, default resistor triple. State built without branching: the capture buffer receives 3 symbolic LEFT-OVER samples of an earlier press and then the capacity-1 samples of the current unbroken run (HistoryBuffer::write, in order), run counters as c15_poll_step proves them for a run of that length, press flag symbolic (first report or refresh); then one real poll() with the sample that completes the capture. Controller B differs from A in the left-over samples, in the newest samples that fall in the finger-lift allowance and in the completing sample: both report the press and value() is bit-identical (depends on no sample of an earlier press and on none of the excluded newest samples), lies in [0,1]; run samples on a 2^-10 grid in the in-range interval
 macro_rules! c16_value_step {
     ($name:ident, $k:expr) => {
         #[kani::proof]
